@@ -26,6 +26,11 @@ Open(p, m) == /\ Tick([op |-> "open", path |-> p, mode |-> m])
               /\ disk' = IF Truncates(m) THEN [disk EXCEPT ![p] = <<>>] ELSE disk
               /\ h' = OpenedAt(p, m, IF Truncates(m) THEN <<>> ELSE disk[p])
               /\ Res(0, "", <<>>)
+(* an open that fails (path 9: a directory that does not exist): IOError; the stream that was open is closed, once, and the
+   File is closed afterwards - it does not keep the handle it has just given back *)
+OpenFail(m) == /\ Tick([op |-> "open", path |-> 9, mode |-> m])
+               /\ closes' = IF h.open THEN closes + 1 ELSE closes
+               /\ h' = Closed /\ Res(0, "IOError", <<>>) /\ UNCHANGED <<disk, opens>>
 Write(seed, n) == LET a == [op |-> "write", seed |-> seed, n |-> n] IN
   IF ~h.open \/ (~h.wr /\ n > 0) THEN Refuse(a)
   ELSE /\ Tick(a) /\ Len(disk[h.path]) + n <= MaxFile
@@ -51,6 +56,7 @@ Close == IF ~h.open THEN Refuse([op |-> "close"])
          ELSE Tick([op |-> "close"]) /\ h' = Closed /\ closes' = closes + 1 /\ Res(0, "", <<>>) /\ UNCHANGED <<disk, opens>>
 
 Next == \/ \E p \in Paths, m \in Modes : Open(p, m)
+        \/ \E m \in {1, 4} \cap Modes : OpenFail(m)
         \/ \E n \in Chunks, sd \in {1, 2} : Write(sd, n)
         \/ \E n \in Chunks : Read(n)
         \/ \E off \in -3..3, o \in 0..2 : Seek(off, o)
